@@ -35,6 +35,10 @@
        11 ReadObject once, on a reader positioned after a valid header -> (type body)
        12 NewPackfileReader + ReadObject until failure (as C18 kind 0)
        13 ReadPktLine -> line   14 UintListDecoder.Read   15 FloatListDecoder.Read
+       16 / 17 / 18 = 2 / 3 / 4 with NewStrListDecoder(true)   19 = 14 with NewUintListDecoder(true)
+       21 = 15 with NewFloatListDecoder(true)
+    case  = (22 commitbytes cut nparents) Commit.ReadFrom on the first cut bytes of a valid commit
+    case  = (23 tablebytes cut)           Table.ReadFrom on the first cut bytes of a valid table
     obs   = (0 value) | (1) | (2)            values as for C18
     case  = (20 packfile ((content sum) ...) ((compressed decoded) ...) ((blocksum (pk ...) idxsum) ...))
        ObjectReceiver.Receive on an empty store; the three tables are meow.Checksum,
@@ -182,9 +186,9 @@ Definition run_C18 (c : tree) : tree :=
 (** C17 *)
 Definition on_bytes {A} (p : nat -> prog A) (b : bytes) : res A := on_reader p (whole b).
 
-Definition validated_decode (b : bytes) : res (list bytes) :=
+Definition validated_decode (ru : bool) (b : bytes) : res (list bytes) :=
   match validate_strlist b with
-  | Ok _ => fst (strlist_decode pcap b)
+  | Ok _ => fst (strlist_decode_g ru pcap b)
   | Err e => Err e
   | Panic => Panic
   end.
@@ -237,7 +241,7 @@ Definition run_C17 (c : tree) : tree :=
   | 1%nat => t_res17 (fun _ => Node []) (validate_block b)
   | 2%nat => t_res17 (t_list t_bytes) (on_bytes (strlist_read1 pcap) b)
   | 3%nat => t_res17 t_bytes (on_bytes strlist_read_bytes b)
-  | 4%nat => t_res17 (t_list t_bytes) (validated_decode b)
+  | 4%nat => t_res17 (t_list t_bytes) (validated_decode false b)
   | 5%nat => t_res17 t_block (on_bytes (block_read pcap) b)
   | 6%nat => t_res17 t_table (on_bytes (table_read pcap) b)
   | 7%nat => t_res17 t_bidx (on_bytes blockindex_read b)
@@ -249,5 +253,13 @@ Definition run_C17 (c : tree) : tree :=
   | 13%nat => t_res17 t_bytes (on_bytes (fun _ => pktline_read) b)
   | 14%nat => t_res17 (t_list t_N) (on_bytes (uintlist_read pcap) b)
   | 15%nat => t_res17 (t_list t_N) (on_bytes (floatlist_read pcap) b)
+  | 16%nat => t_res17 (t_list t_bytes) (on_bytes (strlist_read1_reuse pcap) b)
+  | 17%nat => t_res17 t_bytes (on_bytes (strlist_read_bytes_g true) b)
+  | 18%nat => t_res17 (t_list t_bytes) (validated_decode true b)
+  | 19%nat => t_res17 (t_list t_N) (on_bytes (uintlist_entry true pcap) b)
+  | 21%nat => t_res17 (t_list t_N) (on_bytes (floatlist_entry true pcap) b)
+  | 22%nat => t_res17 t_commit (on_bytes (commit_read go_parse_int go_parse_tz)
+                                         (firstn (d_nat (d_nth 2 c)) b))
+  | 23%nat => t_res17 t_table (on_bytes (table_read pcap) (firstn (d_nat (d_nth 2 c)) b))
   | _ => run_receive c
   end.
